@@ -145,5 +145,7 @@ pub fn run(ctx: &Ctx) -> &'static str {
         || crate::props::decide::strategy(mo2),
         |_| |c: &crate::props::decide::Case, o: &mut Obs| crate::props::decide::check(c, o, crate::props::decide::Which::C12, ctx),
     );
+    // the flags as the real binary hands them to the loop ("off" must arrive as off)
+    crate::props::cli::run(ctx);
     "exploration"
 }
